@@ -361,8 +361,15 @@ def _distribute(g: MG, draw, prog):
 # materialising a multi-file case
 # --------------------------------------------------------------------------------------
 class Workspace:
-    def __init__(self, case, render_fn):
-        self.base = tempfile.mkdtemp(prefix="vf-ws-")
+    def __init__(self, case, render_fn, base=None):
+        """base: fixed directory (created if missing, kept on close) - used when several processes must see the same
+        absolute paths; default: a fresh temporary directory that close() removes."""
+        self.keep = base is not None
+        if base is None:
+            self.base = tempfile.mkdtemp(prefix="vf-ws-")
+        else:
+            self.base = base
+            os.makedirs(base, exist_ok=True)
         self.case = case
         self.texts: dict[str, str] = {}
         self.rendered: dict[str, object] = {}
@@ -386,7 +393,8 @@ class Workspace:
         self.lookup_paths = [os.path.join(self.base, lp) for lp in case["lookup"]]
 
     def close(self):
-        shutil.rmtree(self.base, ignore_errors=True)
+        if not self.keep:
+            shutil.rmtree(self.base, ignore_errors=True)
 
     def __enter__(self):
         return self
